@@ -109,17 +109,7 @@ class Adapter:
         return None
 
 
-_T = {}
-
-
-def template():
-    if "ps" not in _T:
-        w = World()
-        w.netdev = {}
-        w.disks = []
-        ps = import_psutil(w)
-        _T["w"], _T["ps"] = w, ps
-    return _T["w"], _T["ps"]
+from harness.tmpl import template  # noqa: E402
 
 
 def run_events(job):
